@@ -176,10 +176,10 @@ META = {
     "level_text": "Theorems in coq/props/C19.v: for every grid (any size, any uint32 domain indices, any set iteration "
                   "order) .msh export followed by import returns the same vertices, elements and - when some index is "
                   "non-zero - domain indices; exact characterisation of when the whole grid survives (refuted for all-zero "
-                  "indices on the pinned tree, with witness); vertices/connectivity for the tag-less formats; the int32 "
+                  "indices on the current tree, with witness: recorded finding); vertices/connectivity for the tag-less formats; the int32 "
                   "casts are harmless; data layout (node/element, real/complex split, transposition, per-block wrapping) "
-                  "of the current source and the transformation table; complex element data is exported iff wrapped "
-                  "(refuted on the pinned tree, with witness).",
+                  "of the current source incl. complex element data (two wrapped arrays) and the transformation table; unwrapped "
+                  "element arrays would be rejected by meshio.",
     "level_note": "Trusted: Coq kernel; translators/iofacts.py; meshio behaves as the stated oracle (checked on real files "
                   "by the correspondence run, not proved); evaluate_on_vertices/_element_centers are the reference. sqrt/"
                   "log values of abs/log_abs and user callables are only exercised on the implementation.",
